@@ -8,7 +8,70 @@ import LitexProofs.Packet.Bytes
 import LitexProofs.Packet.UnalignedStep
 import LitexProofs.Packet.UnalignedRoundTrip
 import LitexProofs.Packet.Ctor
+import LitexProofs.Packet.HeaderClip
+import LitexProofs.Packet.FifoAll
+import LitexProofs.Packet.UnalignedDepackTightEx
+import LitexProofs.Packet.UnalignedTightEx
+import LitexProofs.Packet.UnalignedTightRTEx
+import LitexProofs.Packet.UnalignedTightExact
+import LitexModel.Packet.Num
 /-
+  INVENTORY of the anchor file litex/soc/interconnect/packet.py (every class / method / code path):
+
+  element                         | model (LitexModel/…)                  | theorems (this file)                          | tie to /repo (harness/props/c16.py)
+  --------------------------------+---------------------------------------+-----------------------------------------------+---------------------------------------------
+  Status (first/last/ongoing)     | Stream/Status.lean `status`           | used inside arbiter_* / dispatcher_* (§3);    | A+B `packet.Status` jobs of C04 (driver
+                                  |                                       | its own laws are C04's                        | drv_c04 "status"); inside Arbiter/Dispatcher here
+  Arbiter, n ≥ 2 (RoundRobin +    | Packet/Arbiter.lean `arbiter n`,      | arbiter_atomic, _lossless, _fair,             | A: n = 2,3 (4 thorough) all letters; B: n = 3..9,
+    Status per master + Case)     | RoundRobin.lean                       | _request_remembered                           | payload 8..128 bit, monitor (single source, fairness)
+  Arbiter, n = 1 (`connect`)      | `arbiterConnect` / `arbiterCtor 1`    | arbiter_atomic_all_ports, _lossless_all_ports,| A "Arbiter(1)/plain connect"
+                                  |                                       | arbiter_single_master_wire                    |
+  Arbiter, n = 0 (`pass`)         | `arbiterEmpty` / `arbiterCtor 0`      | arbiter_atomic_all_ports                      | A "Arbiter(0)/nothing connected"
+  Dispatcher, m ≥ 2 or one_hot    | `dispatcher m oneHot`                 | dispatcher_atomic, dispatcher_one_slave,      | A: m = 1..3 (4,5 thorough) binary + one_hot, all sel
+    (Status, sel latch, Case,     |                                       | dispatcher_log_ports                          | values incl. unmatched; B: m = 3..9, monitor
+    default: ready = 1)           |                                       |                                               |
+  Dispatcher, m = 1, no one_hot   | `dispatcherConnect`/`dispatcherCtor`  | dispatcher_atomic_all_ports,                  | A "Dispatcher(1)/plain connect"
+                                  |                                       | dispatcher_single_slave_wire                  |
+  Dispatcher, m = 0               | `dispatcherEmpty`                     | dispatcher_no_slave_dead                      | A "Dispatcher(0)…" (binary and one_hot)
+  `**kwargs` of connect (omit/keep)| not modelled (pure pass-through to     | —                                             | not exercised (no user in /repo passes them)
+                                  | Endpoint.connect, C03's subject)      |                                               |
+  HeaderField(byte,offset,width)  | Packet/Header.lean `HField`           | all of §1                                     | C: random tables (bytes, bit offsets, widths)
+  Header.encode / decode          | `encode`/`decode` (unbounded signal), | header_roundtrip_partial, _noswap,            | C: `header_tie` (well-formed + overlapping tables),
+    incl. table order, slice      | HeaderClip.lean `encodeL`/`decodeL`   | header_roundtrip_len_partial, encode_layout,  | `c16hdr.header_clip_tie` (fields beyond the length,
+    clipping at 8·length          | (signal of 8·length bits)             | encode_fits, header_encode_within_length,     | overlaps, random name order) through the real
+                                  |                                       | header_overlap_last_writer, _field_roundtrip, | Header on a Netlist; layout/round-trip oracles
+                                  |                                       | header_clipped_field_noswap/_swap, _beyond    |
+  reverse_bytes (swap_field_bytes)| `revBytes`, `swapField`               | swap_involutive; _fails_odd_width (finding)   | C: `revbytes` call + swapped tables
+  Header.get_field (_lsb/_msb,    | HeaderClip.lean `getField`,           | get_field_width_check,                        | C: named tables (lsb/msb pairs, single halves,
+    width check, AttributeError)  | `encodeObj`/`decodeObj`               | header_lsb_msb_roundtrip                      | wrong widths, missing attributes) incl. exceptions
+  Header.get_layout               | `getLayout` (table order = sorted)    | — (definition)                                | C: compared with sorted (name, width)
+  Packetizer: IDLE / HEADER-SEND /| Packet/Packetizer.lean `packetizer c` | packetizer_bytes_partial (aligned, all B, H), | A: dw 8/16 (24/32 thorough), H 1..5 (8 thorough) all
+    ALIGNED-DATA-COPY, sr, count  | (parametric in B, H; count wrap,      | packetizer_header_bytes, frame_bytes          | letters incl. garbage on invalid sink; B: test_packet
+    header_words == 1 shortcut    | srFrom min(), W = 1 special cases)    |                                               | header dw 8..128, eth/ip-like, random (B,H), monitor
+  Packetizer: UNALIGNED-DATA-COPY,| same machine (`ucopy`, `pkUData`,     | packetizer_bytes_unaligned_partial,           | A: dw16 H3/H5 (dw24/32 thorough); B: unaligned random
+    sink_d, fsm_from_idle, flush  | `dData`/`dLast`, `fromIdle`)          | _tight_partial (exact boundary),              | (B,H) with monitors inside the proved region, defect
+                                  |                                       | packetizer_bubble_condition_exact; findings:  | regions compared without monitor + probes
+                                  |                                       | single-beat, bubble (negative witnesses)      |
+  Packetizer/Depacketizer, H < B  | same machines (W = 0)                 | negative witness (finding shorter-than-beat)  | A: dw16/H1; probe
+  Depacketizer: IDLE / HEADER-    | `depacketizer c` (dpShift,            | depacketizer_bytes_partial (aligned, all      | as Packetizer (A + B + monitor DeframingMonitor)
+    RECEIVE / ALIGNED copy, sr    | W = 1 ∧ L = 0 special case)           | inputs, no hypothesis)                        |
+  Depacketizer: UNALIGNED copy,   | same machine (`dpShiftLeft`,          | depacketizer_bytes_unaligned_partial,         | A: dw16 H3/H5; B; probe residue-end
+    sr_shift_leftover, sink_d     | `dpUData`)                            | _tight_partial; finding residue-end (witness) |
+  Packetizer → Depacketizer       | `pkdpk c` = Elem.comp                 | pkt_depkt_roundtrip_partial, _unaligned_      | A: composites of the small grid; B: all B-grid points
+    (closed system)               |                                       | partial, _unaligned_tight_partial,            | with RoundTripMonitor
+                                  |                                       | deframe_frame_eq                              |
+  `error` pass-through            | Packet/Num.lean `errorWire`,          | error_passthrough                             | A: dw8/dw16 both-sided and source-only; B: eth dw32
+                                  | `withError` (port wrapper)            |                                               |
+  `last_be`                       | — (this version of packet.py has none)| —                                             | —
+  PacketFIFO, depths ≥ 2          | Packet/Fifo.lean `packetFifo`,        | packetfifo_atomic, _valid_complete,           | A: depth 2..4 plain/buffered; B: depths 3..64, param
+    (plain / buffered)            | `packetFifoBuffered`                  | _buffered_atomic, _capacity                   | depths 1..20, 8..128 bit, monitor PacketFifoMonitor
+  PacketFIFO, every depth incl.   | Packet/FifoAll.lean `packetFifoAll`   | packetfifo_atomic_all_depths_partial,         | A: (1), (1,pd0), (1,buffered), (0), (2,pd0), …;
+    0 / 1, mixed kinds, param_    | (QKind never/pipe/fifo/bfifo)         | _valid_complete_all_depths_partial,           | B: depth-1 / param_depth-0 grid; all PacketFIFO jobs
+    depth = 0, dummy param        |                                       | packetfifo_depth0_dead, _all_depths_extends,  | except two legacy ones run against this model;
+                                  |                                       | packetfifo_buffered_param_depth0_defect       | defect region compared without monitor
+  PacketFIFO `param_layout == []` | same machines with param ≡ 0 (a 1-bit | (the theorems above, param = 0)               | A "PacketFIFO(2)/no params", B "(5,buffered)/no params"
+    → dummy param                 | `dummy` that is never connected)      |                                               |
+
   C16 — Packet framing: headers round-trip and packets are never interleaved or torn.
 
   Models: `LitexModel/Packet/{Header,Packetizer,Fifo,Arbiter}.lean` (litex/soc/interconnect/packet.py).
@@ -69,6 +132,119 @@ example :
 /-- Negative witness (finding C16-header-swap-odd-width): a swapped 12-bit field does not round-trip. -/
 theorem header_roundtrip_fails_odd_width :
     decode true [⟨0, 0, 12⟩] (encode true [⟨0, 0, 12⟩] [0xdef]) = [0xfde] := by decide
+
+/-! ### Header with its LENGTH, ill-formed tables, and the `get_field` name convention
+
+  `encodeL len` / `decodeL len` (`LitexModel/Packet/HeaderClip.lean`) are `Header(fields, len, swap).encode/decode`
+  on the `8·len`-bit signal, including what Migen's slice clipping does to fields that reach beyond it.
+  `Header` itself never checks a table: overlaps and fields beyond the length elaborate silently. -/
+
+/-- **header_roundtrip for ALL well-formed headers** (`_partial` only in the byte-swap width condition `hs`, finding
+    C16-header-swap-odd-width): any field list — bytes, bit offsets, widths arbitrary — whose fields do not overlap
+    and lie inside the `len`-byte header round-trips through the real signal width.  By induction over the list. -/
+theorem header_roundtrip_len_partial (len : Nat) (swap : Bool) (fields : List HField) (vals : List Nat)
+    (hlen : vals.length = fields.length) (hd : pairwiseDisjoint fields = true) (hf : fitsIn len fields = true)
+    (hs : swap = true → ∀ f ∈ fields, f.swappable = true)
+    (hv : ∀ p ∈ fields.zip vals, p.2 < 2 ^ p.1.width) :
+    decodeL len swap fields (encodeL len swap fields vals) = vals :=
+  header_roundtrip_len len swap fields vals hlen hd hf hs hv
+
+/-- For tables inside the header the length plays no role (the section-1 theorems are about the same function). -/
+theorem header_len_irrelevant_when_fits (len : Nat) (swap : Bool) (fields : List HField) (vals : List Nat) (sig : Nat)
+    (hf : fitsIn len fields = true) :
+    encodeL len swap fields vals = encode swap fields vals ∧ decodeL len swap fields sig = decode swap fields sig :=
+  ⟨encodeL_eq_encode len swap fields vals hf, decodeL_eq_decode len swap fields sig hf⟩
+
+/-- The header signal never exceeds its `8·len` bits — for EVERY table, well formed or not. -/
+theorem header_encode_within_length (len : Nat) (swap : Bool) (fields : List HField) (vals : List Nat) :
+    encodeL len swap fields vals < 2 ^ (8 * len) := encodeL_lt len swap fields vals
+
+/-- **Ill-formed, overlap: the last writer wins** (assignments in `sorted(fields)` order).  For every table, every
+    header bit `j` covered by field `i` and by no later field carries field `i`'s (swapped) value bit. -/
+theorem header_overlap_last_writer (len : Nat) (swap : Bool) (fields : List HField) (vals : List Nat)
+    (hlen : vals.length = fields.length) (i : Nat) (hi : i < fields.length) (j : Nat)
+    (hc : ((fields[i]).clip (8 * len)).covers j = true)
+    (hlater : ∀ k (hk : k < fields.length), i < k → ((fields[k]).clip (8 * len)).covers j = false) :
+    (encodeL len swap fields vals).testBit j
+      = (swapField swap (fields[i]).width (vals[i]'(by omega))).testBit (j - ((fields[i]).clip (8 * len)).start) :=
+  encodeL_bit_last_writer len swap fields vals hlen i hi j hc hlater
+
+/-- … hence field `i` round-trips whenever no LATER field overlaps it and it lies inside the header; earlier
+    overlapping fields and other fields beyond the length do not matter (full strength, no global hypothesis). -/
+theorem header_field_roundtrip (len : Nat) (swap : Bool) (fields : List HField) (vals : List Nat)
+    (hlen : vals.length = fields.length) (i : Nat) (hi : i < fields.length)
+    (hlater : ∀ k (hk : k < fields.length), i < k → (fields[i]).disjoint (fields[k]) = true)
+    (hfit : (fields[i]).stop ≤ 8 * len) (hs : swap = true → (fields[i]).swappable = true)
+    (hv : vals[i]'(by omega) < 2 ^ (fields[i]).width) :
+    (decodeL len swap fields (encodeL len swap fields vals))[i]'(by simp [decodeL, hi]) = vals[i]'(by omega) :=
+  decodeL_encodeL_field len swap fields vals hlen i hi hlater hfit hs hv
+
+/-- Negative witness: an EARLIER field overlapped by a later one does not round-trip (`a = 0xff` reads back `0x0f`). -/
+theorem header_overlap_earlier_field_lost :
+    decodeL 2 false [⟨0, 0, 8⟩, ⟨0, 4, 8⟩] (encodeL 2 false [⟨0, 0, 8⟩, ⟨0, 4, 8⟩] [0xff, 0]) = [0x0f, 0] :=
+  overlap_earlier_field_lost
+
+/-- **Ill-formed, beyond the length.**  Without byte swap a clipped field gives back the low bits that fit … -/
+theorem header_clipped_field_noswap (len : Nat) (fields : List HField) (vals : List Nat)
+    (hlen : vals.length = fields.length) (i : Nat) (hi : i < fields.length)
+    (hlater : ∀ k (hk : k < fields.length), i < k →
+      ((fields[i]).clip (8 * len)).disjoint ((fields[k]).clip (8 * len)) = true) :
+    (decodeL len false fields (encodeL len false fields vals))[i]'(by simp [decodeL, hi])
+      = vals[i]'(by omega) % 2 ^ ((fields[i]).clip (8 * len)).width :=
+  decodeL_encodeL_clipped_noswap len fields vals hlen i hi hlater
+
+/-- … with byte swap (whole-byte widths `8a`, `8b` bytes remaining) the TOP `b` bytes come back (encode swaps at
+    the full width, decode at the clipped width) … -/
+theorem header_clipped_field_swap (len : Nat) (fields : List HField) (vals : List Nat)
+    (hlen : vals.length = fields.length) (i : Nat) (hi : i < fields.length)
+    (hlater : ∀ k (hk : k < fields.length), i < k →
+      ((fields[i]).clip (8 * len)).disjoint ((fields[k]).clip (8 * len)) = true)
+    (a b : Nat) (ha : (fields[i]).width = 8 * a) (hb : ((fields[i]).clip (8 * len)).width = 8 * b) :
+    (decodeL len true fields (encodeL len true fields vals))[i]'(by simp [decodeL, hi])
+      = vals[i]'(by omega) % 2 ^ (8 * a) / 2 ^ (8 * (a - b)) :=
+  decodeL_encodeL_clipped_swap_bytes len fields vals hlen i hi hlater a b ha hb
+
+/-- … a field entirely beyond the header is not encoded at all and decodes to 0; for a swapped clipped field whose
+    remaining width is not a whole number of bytes there is no clean formula (kernel-checked witness). -/
+theorem header_field_beyond (len : Nat) (swap : Bool) (sig : Nat) (f : HField) (h : 8 * len ≤ f.start)
+    (l : List (HField × Nat)) (s0 : Nat) :
+    decodeFieldL (8 * len) swap sig f = 0 ∧
+    encodeFromL (8 * len) swap s0 l = encodeFromL (8 * len) swap s0 (l.filter fun p => decide (p.1.start < 8 * len)) :=
+  ⟨decodeFieldL_beyond len swap sig f h, encodeFromL_filter_beyond (8 * len) swap l s0⟩
+
+theorem header_clipped_swap_odd_witness :
+    encodeL 2 true [⟨0, 4, 24⟩] [0xabcdef] = 0xdab0 ∧
+    decodeL 2 true [⟨0, 4, 24⟩] (encodeL 2 true [⟨0, 4, 24⟩] [0xabcdef]) = [0xabd] :=
+  clipped_swap_odd_no_formula
+
+/-- **`get_field`**: the `Width mismatch` ValueError is raised exactly when the selected part of the record signal
+    (`x` itself, `x[:w]` for `x_lsb`, `x[w:2w]` for `x_msb`, Python-clipped to `len(x)`) is not `w` bits wide. -/
+theorem get_field_width_check (W : Nat) (k : FKind) (w : Nat) :
+    ((∃ e, getField W k w = .error e) ↔ (k.range W w).2 ≠ w) ∧
+    (getField W .plain w = if W = w then .ok (0, W) else .error "Width mismatch") ∧
+    (getField W .lsb w = .ok (0, w) ↔ w ≤ W) ∧ ((∃ r, getField W .msb w = .ok r) ↔ (2 * w ≤ W ∨ w = 0)) :=
+  ⟨getField_error_iff W k w, getField_plain W w, getField_lsb_ok_iff W w, getField_msb_ok_iff W w⟩
+
+/-- A record signal `x` of `2w` bits carried by the pair of header fields `x_lsb` / `x_msb` (any two disjoint
+    `w`-bit places inside the header) round-trips as a whole. -/
+theorem header_lsb_msb_roundtrip (len : Nat) (swap : Bool) (fl fm : HField) (w x : Nat)
+    (hl : fl.width = w) (hm : fm.width = w) (hd : fl.disjoint fm = true)
+    (hfl : fl.stop ≤ 8 * len) (hfm : fm.stop ≤ 8 * len)
+    (hs : swap = true → fl.swappable = true ∧ fm.swappable = true) (hx : x < 2 ^ (2 * w)) :
+    let tbl : List NField := [⟨fl, 0, .lsb⟩, ⟨fm, 0, .msb⟩]
+    ∃ sig, encodeObj len swap tbl [(2 * w, x)] = .ok sig ∧ sig < 2 ^ (8 * len) ∧
+      decodeObj len swap tbl [2 * w] sig = .ok [x] :=
+  lsb_msb_roundtrip len swap fl fm w x hl hm hd hfl hfm hs hx
+
+/-- Non-vacuity: the `test_packet.py` table is well formed at its length 31 and NOT at length 30 (its 128-bit field
+    is clipped to 120 bits there); a 32-bit `x = 0xabcdef12` through swapped `x_lsb`/`x_msb` halves in a 4-byte
+    header. -/
+example :
+    let fields : List HField := [⟨15, 0, 128⟩, ⟨1, 0, 16⟩, ⟨3, 0, 32⟩, ⟨7, 0, 64⟩, ⟨0, 0, 8⟩]
+    fitsIn 31 fields = true ∧ fitsIn 30 fields = false ∧ ((fields[0]).clip (8 * 30)).width = 120 ∧
+    encodeObj 4 true [⟨⟨0, 0, 16⟩, 0, .lsb⟩, ⟨⟨2, 0, 16⟩, 0, .msb⟩] [(32, 0xabcdef12)] = .ok 0xcdab12ef ∧
+    decodeObj 4 true [⟨⟨0, 0, 16⟩, 0, .lsb⟩, ⟨⟨2, 0, 16⟩, 0, .msb⟩] [32] 0xcdab12ef = .ok [0xabcdef12] := by
+  decide
 
 /-! ## 2. PacketFIFO -/
 
@@ -182,6 +358,92 @@ example :
        ⟨true, t 3 5 true, false⟩, ⟨true, t 3 5 true, true⟩, ⟨true, t 3 5 true, true⟩,
        ⟨false, t 0 0 false, true⟩, ⟨false, t 0 0 false, true⟩]
     e.delivered e.init ins = [t 1 9 false, t 2 9 true, t 3 5 true] := by decide
+
+/-! ### Every depth (`packetFifoAll pd qd buffered`)
+
+  `stream.SyncFIFO` builds four different circuits: depth 0 a wire, depth 1 a `PipeValid` register (`buffered`
+  ignored), depth ≥ 2 a Migen `SyncFIFO` or `SyncFIFOBuffered`; PacketFIFO combines two of them (payload: `pd`,
+  params: `qd = param_depth + 1 ≥ 1`).  `packetFifoAll` models every combination over one generic queue
+  (`QSt`: `stored`, `readable`, `dout`, `writable`, `next`), powers of two or not. -/
+
+/-- **packetfifo_atomic for every payload/param depth and both `buffered` values** (`_partial`: the hypothesis excludes
+    exactly buffered payload FIFO + `PipeValid` param queue, i.e. `buffered=True, payload_depth ≥ 2, param_depth = 0`,
+    where the property FAILS on the code — `packetfifo_buffered_param_depth0_defect`).  Same conclusions as
+    `packetfifo_atomic`; `stored` = what the queue of that kind holds (register and/or FIFO content), capacities
+    0 / 1 / depth / depth+1. -/
+theorem packetfifo_atomic_all_depths_partial (pd qd : Nat) (buffered : Bool)
+    (hnd : ¬ (buffered = true ∧ 2 ≤ pd ∧ qd = 1)) (ins : List (In PBeat)) :
+    let e := packetFifoAll pd qd buffered
+    let kp := qkind pd buffered
+    let kq := qkind qd buffered
+    let s := e.runFrom e.init ins
+    e.delivered e.init ins <+: annT (e.accepted e.init ins) ∧
+    (e.accepted e.init ins).length = (e.delivered e.init ins).length + (s.pay.stored kp).length ∧
+    (s.par.stored kq).length = ((s.pay.stored kp).filter (fun x => x.2)).length ∧
+    (s.par.readable kq = true → s.pay.readable kp = true) ∧
+    (s.pay.stored kp).length ≤ QSt.cap kp pd ∧ (s.par.stored kq).length ≤ QSt.cap kq qd :=
+  packetFifoAll_atomic pd qd buffered hnd ins
+
+/-- `source.valid` (in any reachable state, same exclusion) shows the head of the stored payload with the head of
+    the stored params, and a complete packet is stored. -/
+theorem packetfifo_valid_complete_all_depths_partial (pd qd : Nat) (buffered : Bool)
+    (hnd : ¬ (buffered = true ∧ 2 ≤ pd ∧ qd = 1)) (ins : List (In PBeat)) (i : In PBeat) :
+    let e := packetFifoAll pd qd buffered
+    let s := e.runFrom e.init ins
+    (e.out s i).valid = true →
+      (∃ rest, s.pay.stored (qkind pd buffered) = ((e.out s i).tok.data.data, (e.out s i).tok.last) :: rest) ∧
+      (∃ rest, s.par.stored (qkind qd buffered) = (e.out s i).tok.data.param :: rest) ∧
+      ∃ x ∈ s.pay.stored (qkind pd buffered), x.2 = true :=
+  packetFifoAll_valid_complete pd qd buffered hnd ins i
+
+/-- Negative witness on the model (= the code, tied): `PacketFIFO(2, param_depth=0, buffered=True)`, one single-beat
+    packet `(107 | param 48)`: the param register is readable one cycle before the payload output register, so a
+    beat that was never accepted (`data 0`, `last 0`) is delivered first. -/
+theorem packetfifo_buffered_param_depth0_defect :
+    let t (d p : Nat) (l : Bool) : Tok PBeat := ⟨⟨d, p⟩, false, l⟩
+    let e := packetFifoAll 2 1 true
+    let ins : List (In PBeat) := [⟨true, t 107 48 true, true⟩, ⟨false, t 0 0 false, true⟩,
+      ⟨false, t 0 0 false, true⟩, ⟨false, t 0 0 false, true⟩]
+    e.accepted e.init ins = [t 107 48 true] ∧
+    e.delivered e.init ins = [t 0 48 false, t 107 48 true] ∧
+    ¬ (e.delivered e.init ins <+: annT (e.accepted e.init ins)) ∧
+    ((e.runFrom e.init [⟨true, t 107 48 true, true⟩]).par.readable (qkind 1 true) = true ∧
+     (e.runFrom e.init [⟨true, t 107 48 true, true⟩]).pay.readable (qkind 2 true) = false) :=
+  packetFifoAll_defect
+
+/-- `payload_depth = 0`: the FIFO is dead from reset — nothing is ever accepted or delivered (the degenerate case of
+    `packetfifo_capacity`: no packet fits). -/
+theorem packetfifo_depth0_dead (qd : Nat) (buffered : Bool) (ins : List (In PBeat)) :
+    let e := packetFifoAll 0 qd buffered
+    e.accepted e.init ins = [] ∧ e.delivered e.init ins = [] ∧
+      ∀ i, (e.out (e.runFrom e.init ins) i).ready = false ∧ (e.out (e.runFrom e.init ins) i).valid = false :=
+  Litex.Packet.packetfifo_depth0_dead qd buffered ins
+
+/-- For depths ≥ 2 `packetFifoAll` IS the machine of `packetfifo_atomic` / `packetfifo_buffered_atomic` (state map
+    `pfaOfPlain` / `pfaOfBuffered`, same accepted and delivered streams from every state, for every input list). -/
+theorem packetfifo_all_depths_extends (pd qd : Nat) (hp : 2 ≤ pd) (hq : 2 ≤ qd) (ins : List (In PBeat)) :
+    (packetFifo pd qd).accepted (packetFifo pd qd).init ins
+        = (packetFifoAll pd qd false).accepted (packetFifoAll pd qd false).init ins ∧
+    (packetFifo pd qd).delivered (packetFifo pd qd).init ins
+        = (packetFifoAll pd qd false).delivered (packetFifoAll pd qd false).init ins ∧
+    (packetFifoBuffered pd qd).accepted (packetFifoBuffered pd qd).init ins
+        = (packetFifoAll pd qd true).accepted (packetFifoAll pd qd true).init ins ∧
+    (packetFifoBuffered pd qd).delivered (packetFifoBuffered pd qd).init ins
+        = (packetFifoAll pd qd true).delivered (packetFifoAll pd qd true).init ins := by
+  have h1 := packetFifoAll_eq_plain pd qd hp hq ins (packetFifo pd qd).init
+  have h2 := packetFifoAll_eq_buffered pd qd hp hq ins (packetFifoBuffered pd qd).init
+  exact ⟨h1.1, h1.2.1, h2.1, h2.2.1⟩
+
+/-- Non-vacuity: three back-to-back single-beat packets through `PacketFIFO(1)` (payload `PipeValid`: a beat is
+    accepted in the cycle the previous one is popped) come out in order with their own params, also with
+    `param_depth = 0` (both queues `PipeValid`). -/
+example :
+    let t (d p : Nat) : Tok PBeat := ⟨⟨d, p⟩, false, true⟩
+    let ins : List (In PBeat) := [⟨true, t 1 7, true⟩, ⟨true, t 2 8, true⟩, ⟨true, t 3 9, true⟩,
+      ⟨false, t 0 0, true⟩, ⟨false, t 0 0, true⟩]
+    (packetFifoAll 1 2 false).delivered (packetFifoAll 1 2 false).init ins = [t 1 7, t 2 8, t 3 9] ∧
+    (packetFifoAll 1 1 false).delivered (packetFifoAll 1 1 false).init ins = [t 1 7, t 2 8, t 3 9] ∧
+    (packetFifoAll 1 1 true).delivered (packetFifoAll 1 1 true).init ins = [t 1 7, t 2 8, t 3 9] := by decide
 
 /-! ## 3. Arbiter and Dispatcher -/
 
@@ -565,6 +827,98 @@ example :
       [⟨⟨0x2211, 0xc3b2a1⟩, false, false⟩, ⟨⟨0x4433, 0xc3b2a1⟩, false, false⟩, ⟨⟨0x6655, 0xc3b2a1⟩, false, true⟩] := by
   refine ⟨uok_of_B _ _ _ _ (by decide), by decide⟩
 
+/-! ### The unaligned theorems at the exact boundary of the findings
+
+  `UOk2` / `udWellFormed2` are implied by `UOk` / `udWellFormed` (`uok2_of_uok_init`,
+  `udWellFormed2_of_udWellFormed`), so the three theorems below subsume the three above. -/
+
+/-- **packetizer_bytes, unaligned, tight** (`_partial`).  `UOk2`, cycle by cycle: (1) stream contract, (3) no
+    single-beat packet — as before — and instead of "all lines held in every pause inside a packet" only
+    (2) in a cycle with `valid = 0` AND `source.ready = 1` strictly inside a packet, the `last` line is low and the
+    TOP `L` bytes of the data line equal those of the beat accepted last.
+    Nothing is required in cycles with `ready = 0`, of the low `B − L` data bytes, of the header lines, or of
+    pauses during IDLE / HEADER-SEND (the code samples `sink_d` on every `source.ready`, but reads only
+    `sink_d.last` and the top `L` bytes, and only in UNALIGNED-DATA-COPY).  Same conclusion as
+    `packetizer_bytes_unaligned_partial`. -/
+theorem packetizer_bytes_unaligned_tight_partial (c : PkCfg) (hc : UnalignedCfg c) (ins : List (In HBeat))
+    (hok : UOk2 c (packetizer c) (packetizer c).init none ins) :
+    let e := packetizer c
+    let a := e.accepted e.init ins
+    let d := e.delivered e.init ins
+    d.map (maskPad c) = frameU c a ∨
+    (∃ v k, uenvRun2 e e.init none ins = some v ∧ v.pend = true ∧ k ≤ c.W ∧
+      d.map (maskPad c) = frameU c a ++ (hdrWords c (hdrOf c v.lines)).take k) ∨
+    (∃ x, d.map (maskPad c) ++ [flushBeat c x] = frameU c a) :=
+  packetizer_bytes_unaligned_tight c hc ins hok
+
+/-- The old hypothesis implies the tight one (for any machine `e` whose `ready` defines acceptance). -/
+theorem uok_implies_uok2 {β σ : Type} (c : PkCfg) (e : Elem HBeat β σ) (ins : List (In HBeat))
+    (h : UOk e e.init none ins) : UOk2 c e e.init none ins := uok2_of_uok_init c e ins h
+
+/-- **Exactness of condition (2)**, for every unaligned configuration: from UNALIGNED-DATA-COPY inside a packet
+    (`p` = the beat accepted last), after ONE sampled pause cycle showing lines `t`, the next beat `x` — offered and
+    taken — is the right one **iff** `t.last = 0` and the top `L` bytes of `t` equal those of `p`. -/
+theorem packetizer_bubble_condition_exact (c : PkCfg) (hc : UnalignedCfg c) (sr cnt dd p : Nat) (t x : Tok HBeat)
+    (hp : p < 2 ^ c.dw) :
+    let e := packetizer c
+    let s : PkState := { st := .ucopy, sr := sr, count := cnt, fromIdle := false, dData := dd, dLast := false }
+    e.delNow s ⟨false, t, true⟩ = [] ∧ e.accNow s ⟨false, t, true⟩ = [] ∧
+    (e.delNow (e.step s ⟨false, t, true⟩) ⟨true, x, true⟩ =
+        [{ data := ubeat c (resid c p) (sinkData c x), first := false, last := false }] ↔
+      (t.last = false ∧ resid c (sinkData c t) = resid c p)) :=
+  upacketizer_bubble_exact c hc sr cnt dd p t x hp
+
+/-- Non-vacuity / newly covered: pause cycles in which ALL lines change while `ready = 0` and the low data byte
+    and the header lines change while `ready = 1`: the old `UOk` is false, `UOk2` holds, framing correct.
+    (More boundary examples, incl. the two kernel-checked violations of condition (2), in
+    `LitexProofs/Packet/UnalignedTightEx.lean`.) -/
+example :
+    let c : PkCfg := ⟨2, 3⟩
+    let e := packetizer c
+    let i (v : Bool) (d h : Nat) (l rdy : Bool) : In HBeat := ⟨v, ⟨⟨d, h⟩, false, l⟩, rdy⟩
+    let ins := [i true 0x2211 0xc3b2a1 false true, i true 0x2211 0xc3b2a1 false true,
+                i false 0x9999 0 true false, i false 0x2299 0 false true, i false 0x8888 0 true false,
+                i true 0x4433 0xc3b2a1 false true, i true 0x6655 0xc3b2a1 true true, i false 0 0 false true]
+    UOk2 c e e.init none ins ∧ uokB e e.init none ins = false ∧
+    (e.delivered e.init ins).map (maskPad c) = frameU c (e.accepted e.init ins) := by
+  refine ⟨uok2_of_B _ _ _ _ _ (by decide), by decide, by decide⟩
+
+/-- **depacketizer_bytes, unaligned, tight** (`_partial`).  `udWellFormed2` forbids `last` only on the FINAL header
+    beat (`W − 1`) and on the residue beat; a `last` on header beats `0 … W − 2` is ignored by the code exactly as the
+    aligned Depacketizer ignores it (`sink_d` is overwritten by every accepted beat).  Both remaining exclusions
+    are necessary (kernel-checked witnesses in `LitexProofs/Packet/UnalignedDepackTightEx.lean`: `last` on header
+    beat `W − 1` enters UNALIGNED-DATA-COPY with `sink_d.last = 1` and emits a spurious last beat — unless the
+    consumer happens to stall in that very cycle; `last` on the residue beat is finding
+    C16-depacketizer-residue-end). -/
+theorem depacketizer_bytes_unaligned_tight_partial (c : PkCfg) (hc : UnalignedCfg c) (ins : List (In Nat))
+    (hwf : udWellFormed2 c (.hdr 0 0) ((depacketizer c).accepted (depacketizer c).init ins)) :
+    (depacketizer c).delivered (depacketizer c).init ins =
+      deframeU c ((depacketizer c).accepted (depacketizer c).init ins) :=
+  depacketizer_bytes_unaligned_tight c hc ins hwf
+
+theorem udWellFormed_implies_tight (c : PkCfg) (l : List (Tok Nat)) (st : UDSt)
+    (h : udWellFormed c st l) : udWellFormed2 c st l := udWellFormed2_of_udWellFormed c l st h
+
+/-- Non-vacuity / newly covered (dw = 16, 5-byte header, `W = 2`): `last` on header beat 0 is ignored. -/
+example :
+    let c : PkCfg := ⟨2, 5⟩
+    let i (d : Nat) (l : Bool) : In Nat := ⟨true, ⟨d, false, l⟩, true⟩
+    let ins := [i 0xb2a1 true, i 0xd4c3 false, i 0x11e5 false, i 0x3322 false, i 0x0044 true]
+    let acc := (depacketizer c).accepted (depacketizer c).init ins
+    UnalignedCfg c ∧ udWellFormed2 c (.hdr 0 0) acc ∧ ¬ udWellFormed c (.hdr 0 0) acc ∧
+    (depacketizer c).delivered (depacketizer c).init ins =
+      [⟨⟨0x2211, 0xe5d4c3b2a1⟩, false, false⟩, ⟨⟨0x4433, 0xe5d4c3b2a1⟩, false, true⟩] := by
+  refine ⟨⟨by decide, by decide, by decide⟩, udWf2_of_B _ _ _ (by decide), ?_, by decide⟩
+  rw [← udWfB_iff]; decide
+
+/-- **pkt_depkt_roundtrip, unaligned, tight** (`_partial`, hypothesis `UOk2` on the closed system: `ready` is the
+    Depacketizer's `source.ready`; strictly inside a packet that is what the Packetizer sees — `urt_ready`). -/
+theorem pkt_depkt_roundtrip_unaligned_tight_partial (c : PkCfg) (hc : UnalignedCfg c) (ins : List (In HBeat))
+    (hok : UOk2 c (pkdpk c) (pkdpk c).init none ins) :
+    ∃ tail, (pkdpk c).delivered (pkdpk c).init ins ++ tail = annot c ((pkdpk c).accepted (pkdpk c).init ins) ∧
+      tail.length ≤ 1 :=
+  pkt_depkt_roundtrip_unaligned_tight c hc ins hok
+
 /-
   Not covered by any theorem (findings, see the negative witnesses above): headers shorter than one beat
   (`H < B`, `header_words = 0`), single-beat packets and producer bubbles with changing lines through an unaligned
@@ -586,5 +940,24 @@ theorem frame_bytes (c : PkCfg) (hc : AlignedCfg c) (t : Tok HBeat) (r : List (T
 /-- The framing functions are inverse to each other on whole packets (pure statement). -/
 theorem deframe_frame_eq (c : PkCfg) (hc : AlignedCfg c) (a : List (Tok HBeat)) :
     deframe c (frame c a) = annot c a := deframe_frame c hc a
+
+/-- **`error` pass-through** of Packetizer and Depacketizer (`source.error.eq(sink.error)` when both endpoints have
+    the field): a combinational wire beside the FSM — in every cycle and every state the last output of the
+    wrapped machine is the sink's `error` input of that same cycle (not delayed with the realigned data); with a
+    source-only `error` field it stays 0. -/
+theorem error_passthrough {σ : Type} (m : Litex.Driver.NumMachine σ) (ew : Nat) (both : Bool) (s s' : σ)
+    (ins o : List Nat) (e : Nat) (h : (withError m ew both).step s (ins ++ [e]) = some (s', o)) :
+    o.getLast? = some (if both then e % 2 ^ ew else 0) ∧
+    ∃ o', m.step s ins = some (s', o') ∧ o = o' ++ [errorWire ew both e] := by
+  simp only [withError, List.getLast?_append, List.getLast?_singleton, Option.some_or,
+    List.dropLast_concat] at h
+  cases hm : m.step s ins with
+  | none => simp [hm] at h
+  | some r =>
+    obtain ⟨s1, o1⟩ := r
+    simp only [hm, Option.map_some, Option.some.injEq, Prod.mk.injEq] at h
+    obtain ⟨h1, h2⟩ := h
+    subst h1; subst h2
+    exact ⟨by simp [errorWire], o1, rfl, rfl⟩
 
 end Litex.C16
